@@ -278,6 +278,9 @@ func (Prop) Gen(seed int64, tier string) *harness.Case {
 	r := harness.Rand(seed)
 	var w Work
 	n := 1 + r.Intn(6)
+	if tier == "thorough" && r.Intn(3) == 0 {
+		n = 6 + r.Intn(10)
+	}
 	for i := 0; i < n; i++ {
 		s := Site{K: r.Intn(nSites)}
 		if r.Intn(2) == 0 {
